@@ -262,3 +262,26 @@ def escaped_letter_sweep(template):
         yield template[:i] + '\\%x ' % ord(ch) + template[i + 1:]
         yield template[:i] + '\\%06x' % ord(ch) + template[i + 1:]
         yield template[:i] + ch.swapcase() + template[i + 1:]
+
+
+# -- selectors assembled from the grammar's own pieces in every order: each "Unexpected ..." branch of the selector parser
+#    is an error path that must hand back a state the next token can be parsed in
+SEL_PIECES = ['a', '*', '.c', '#i', '[b]', '[b=c]', '[b="c"]', '[b~=c]', '[b|=c]', '[b^=c]', '[p|b]', '[|b]', '[*|b]', ':hover',
+              '::before', ':before', ':not(', ':not(a)', ':not(.c)', ':not(p|a)', ':nth-child(2n+1)', ':nth-child(', ':lang(en)',
+              ':lang(', ')', '(', '[', ']', 'p|', '*|', '|', 'p|a', '*|*', '|a', ' ', '>', '+', '~', ',', '.', '#', ':', '::', '=',
+              '1', '1px', '"s"', '%', '!', '/**/', '\\.', 'a\\.b', '@x', '-', '--', '$', '&', '^=', '~=', '|=', '*=']
+
+
+def selector_soup(rng, n=None):
+    n = n if n is not None else rng.randint(1, 7)
+    return ''.join(rng.choice(SEL_PIECES) for _ in range(n))
+
+
+def selector_pairs():
+    """every ordered pair and every `:not(x y)` / `a[x y]` wrapping of two pieces"""
+    for x in SEL_PIECES:
+        for y in SEL_PIECES:
+            yield x + y
+            yield 'a:not(' + x + y + ')b'
+            yield 'a[' + x + y + ']b'
+            yield 'a' + x + y + ' b, c'
